@@ -131,6 +131,9 @@ func run(c *h.Check) {
 	for _, s := range sharedcases() {
 		c.Explore(sharedScenario(s), bound, 0, false)
 	}
+	for _, m := range lifecases() {
+		c.Explore(lifeScenario(m), bound, 0, false)
+	}
 	if c.Thorough() {
 		for _, p := range concurrent() {
 			q := *p
@@ -149,6 +152,11 @@ func replay(c *h.Check, rf *h.ReplayFile) []vrt.Violation {
 	for _, m := range midcases() {
 		if m.name() == rf.Scenario {
 			return h.ReplaySchedule(midScenario(m), rf)
+		}
+	}
+	for _, m := range lifecases() {
+		if m.name() == rf.Scenario {
+			return h.ReplaySchedule(lifeScenario(m), rf)
 		}
 	}
 	for _, s := range sharedcases() {
